@@ -291,6 +291,14 @@ def points(case, ctx):
         r = Buf(96, fill=0xA5)
         l.sm2_z256_point_copy_affine(r, baff)
         ctx.check(pt_get(r)[0] == Bp, "point_copy_affine", "pt/copy_affine")
+    else:
+        # the affine operand at infinity, which the library encodes as (0, 0) ("In affine representation we encode infinity as (0,0)",
+        # sm2_z256_point_add_affine): A + O = A - O = A for finite A and for A at infinity
+        baff = Buf(64, fill=0)
+        got, ok, _ = res(l.sm2_z256_point_add_affine, a, baff)
+        same("point_add_affine with the affine operand at infinity (0,0)", got, ok, A, "pt/add_affine/affine-infinity")
+        got, ok, _ = res(l.sm2_z256_point_sub_affine, a, baff)
+        same("point_sub_affine with the affine operand at infinity (0,0)", got, ok, A, "pt/sub_affine/affine-infinity")
 
 
 # ---------------------------------------------------------------------------
